@@ -134,3 +134,179 @@ Proof.
   - (* And *) split; [done|]. unfold gate_val. change (foldr (g_op And) (g_unit And)) with (gfold And). rewrite gfold_list_idem by (unfold idem; auto). rewrite gfold_and. apply xorb_false_l.
   - (* Nand *) split; [done|]. unfold gate_val. change (foldr (g_op Nand) (g_unit Nand)) with (gfold And). rewrite gfold_list_idem by (unfold idem; auto). by rewrite gfold_and.
 Qed.
+
+(* ------------------------------------------------------------------ steps of the reader refine on the reserved names *)
+Definition refines_rsv (k : rctx) (g g' : circuit) : Prop :=
+  ∀ v, consistent g' v → ∃ v1, consistent g v1 ∧ (∀ s, s ∈ k_rsv k → v1 s = v s) ∧ v1 (k_tx k) = v (k_tx k).
+Lemma refines_refl k g : refines_rsv k g g.
+Proof. intros v Hv. exists v. done. Qed.
+Lemma refines_trans k a b c : refines_rsv k a b → refines_rsv k b c → refines_rsv k a c.
+Proof.
+  intros H1 H2 v Hv. destruct (H2 v Hv) as (v1 & C1 & A1 & T1). destruct (H1 v1 C1) as (v2 & C2 & A2 & T2).
+  exists v2. split; [done|]. split; [intros s Hs; rewrite A2, A1; done|congruence].
+Qed.
+Lemma refines_same k (g g' : circuit) : (∀ v, consistent g' v → consistent g v) → refines_rsv k g g'.
+Proof. intros H v Hv. exists v. auto. Qed.
+Lemma refines_sub k (g g' : circuit) : g ⊆ g' → refines_rsv k g g'.
+Proof. intros Hs. apply refines_same. intros v. by apply consistent_mono. Qed.
+
+(* a net without driver so far: absent, or a free node without fan-in (placeholder buffer, input) *)
+Definition undef_ok (g : circuit) (n : string) : Prop := ∀ i, g !! n = Some i → n_fi i = ∅ ∧ is_free i = true.
+
+Section define.
+  Context (k : rctx).
+  Hypothesis Htr : ties k ## k_rsv k.
+  (* add_node on a reserved name that has no driver yet *)
+  Lemma add_node_shape g n t fi g' nm : add_node (k_rsv k) g n t fi false = Ok (g', nm) →
+    g' !! n = Some (mk_node t false (fanin g n ∪ list_to_set fi)) ∧
+    (∀ x, x ≠ n → g' !! x = g !! x ∨ (g !! x = None ∧ x ∈ fi ∧ g' !! x = Some (mk_node Buf false ∅))) ∧
+    (∀ x, x ∈ fi → x ∈ dom g').
+  Proof.
+    unfold add_node, lift. intros H. destruct (add_g g n t fi [] rd_flags) as [[g2 o] nm2] eqn:Ha. destruct o; [|discriminate].
+    injection H as <- <-. pose proof (add_g_fi_dom _ _ _ _ _ _ _ Ha eq_refl) as Hd. apply add_g_gen in Ha as (_ & Hl & Hx); [|done].
+    split; [done|]. split; [|done]. intros x Hx'. destruct (Hx x Hx') as [?|(? & ? & _ & ?)]; auto.
+  Qed.
+  Lemma add_node_consistent g n t fi g' nm v : add_node (k_rsv k) g n t fi false = Ok (g', nm) → undef_ok g n →
+    consistent g' v → consistent g v.
+  Proof.
+    intros H Hu Hv. apply add_node_shape in H as (_ & Hx & _). intros x i Hi. destruct (decide (x = n)) as [->|Hne].
+    - unfold node_ok. destruct (Hu i Hi) as [_ ->]. done.
+    - destruct (Hx x Hne) as [E|(E & _)]; [|congruence]. apply Hv. by rewrite E.
+  Qed.
+  Lemma add_node_undef g n t fi g' nm m : add_node (k_rsv k) g n t fi false = Ok (g', nm) → m ≠ n → undef_ok g m → undef_ok g' m.
+  Proof.
+    intros H Hne Hu i Hi. apply add_node_shape in H as (_ & Hx & _). destruct (Hx m Hne) as [E|(_ & _ & E)].
+    - apply Hu. by rewrite <- E.
+    - rewrite E in Hi. injection Hi as <-. done.
+  Qed.
+  Lemma add_node_gst g ge n t fi g' nm : add_node (k_rsv k) g n t fi false = Ok (g', nm) → n ∈ k_rsv k →
+    gst k (g, ge) → gst k (g', ge).
+  Proof.
+    intros H Hn (Hcl & Hti & Htg & Hgr). apply add_node_shape in H as (Hl & Hx & Hfd). simpl in *.
+    assert (Hdom : ∀ x, x ∈ dom g → x ∈ dom g').
+    { intros x Hd. destruct (decide (x = n)) as [->|Hne]; [apply elem_of_dom; eauto|].
+      apply elem_of_dom in Hd as [j Hj]. destruct (Hx x Hne) as [E|(E & _)]; [|congruence]. apply elem_of_dom. exists j. by rewrite E. }
+    unfold gst. simpl. split; [|split; [|done]].
+    - intros x i f Hi Hf. destruct (decide (x = n)) as [Heq|Hne]; [subst x|].
+      + rewrite Hl in Hi. injection Hi as <-. simpl in Hf. apply elem_of_union in Hf as [Hf|Hf].
+        * apply Hdom. apply elem_of_fanin in Hf as (j & Hj & Hfj). by eapply Hcl.
+        * apply Hfd. by apply elem_of_list_to_set in Hf.
+      + destruct (Hx x Hne) as [E|(_ & _ & E)].
+        * rewrite E in Hi. apply Hdom. by eapply Hcl.
+        * rewrite E in Hi. injection Hi as <-. simpl in Hf. set_solver.
+    - intros x Hxt. apply Hdom. by apply Hti.
+  Qed.
+  Lemma add_node_ties g n t fi g' nm : add_node (k_rsv k) g n t fi false = Ok (g', nm) → n ∈ k_rsv k → ties_ok k g → ties_ok k g'.
+  Proof.
+    intros H Hn [(i & H0 & T0) (j & H1 & T1)]. apply add_node_shape in H as (_ & Hx & _).
+    assert (k_t0 k ≠ n) by (intros <-; apply (Htr (k_t0 k)); [unfold ties; set_solver|done]).
+    assert (k_t1 k ≠ n) by (intros <-; apply (Htr (k_t1 k)); [unfold ties; set_solver|done]).
+    split; [exists i|exists j]; (split; [|done]).
+    - destruct (Hx (k_t0 k)) as [E|(E & _)]; [done| |congruence]. by rewrite E.
+    - destruct (Hx (k_t1 k)) as [E|(E & _)]; [done| |congruence]. by rewrite E.
+  Qed.
+End define.
+
+(* ---- expressions ---- *)
+Lemma fr2_refl k st : fr2 k st st.
+Proof. split; [done|]. intros x i Hx Hn. congruence. Qed.
+Lemma fr2_trans k a b c : fr2 k a b → fr2 k b c → fr2 k a c.
+Proof.
+  intros [A1 A2] [B1 B2]. split; [by etrans|]. intros x i Hx Hn. destruct (b.1 !! x) as [j|] eqn:Eb.
+  - pose proof (lookup_weaken _ _ _ _ Eb B1). assert (j = i) as -> by congruence. eauto.
+  - eauto.
+Qed.
+Lemma fr2_gate k s prefix t items fi rem s' r' : t ∈ [Not; And; Or; Xor; Xnor] → fi ≠ [] →
+  gate k s prefix t items fi rem = Ok (s', r') → fr2 k s s'.
+Proof.
+  intros Ht Hfi H. apply gate_spec in H as (Hs & Hl & Hnd & Hnr & Hnew & Hge); [|done]. split; [done|].
+  intros x i Hx Hn. assert (Hd : x ∈ dom s'.1) by (apply elem_of_dom; eauto). destruct (Hnew x Hd) as [Hd'|[->|[_ Hb]]].
+  - apply elem_of_dom in Hd' as [? ?]. congruence.
+  - by left.
+  - right. congruence.
+Qed.
+Lemma fr2_list k l st st' rs : rmapS (c_cond k) st l = Ok (st', rs) → fr2 k st st'.
+Proof. apply (frame_list k (fr2 k) (fr2_refl k) (fr2_trans k) (fr2_gate k)). Qed.
+Lemma frg_list k l st st' rs : rmapS (c_cond k) st l = Ok (st', rs) → frg k st st'.
+Proof. apply (frame_list k (frg k) (frg_refl k) (frg_trans k) (frg_gate k)). Qed.
+Lemma fr2_undef k st st' m : fr2 k st st' → m ∈ k_rsv k → undef_ok st.1 m → undef_ok st'.1 m.
+Proof.
+  intros [Hs Hnew] Hm Hu i Hi. destruct (st.1 !! m) as [j|] eqn:Ej.
+  - pose proof (lookup_weaken _ _ _ _ Ej Hs). assert (j = i) as -> by congruence. by apply Hu.
+  - destruct (Hnew m i Hi Ej) as [?| ->]; done.
+Qed.
+
+(* ---- the relabel step ---- *)
+Lemma relabel_shape (g : circuit) r lv t fi : g !! r = Some (mk_node t false (list_to_set fi)) → r ≠ lv → r ∉ fi →
+  (∀ x i, g !! x = Some i → r ∉ n_fi i) → fanin g lv = ∅ →
+  relabel_g g r lv !! lv = Some (mk_node t false (list_to_set fi)) ∧ relabel_g g r lv !! r = None ∧
+  ∀ x, x ≠ lv → x ≠ r → relabel_g g r lv !! x = g !! x.
+Proof.
+  intros Hl Hne Hrfi Hnofo Hfl.
+  assert (Hsub : ∀ i, r ∉ n_fi i → upd_fi (λ s : gset string, if bool_decide (r ∈ s) then {[lv]} ∪ s ∖ {[r]} else s) i = i).
+  { intros i Hi. apply upd_fi_id. by rewrite bool_decide_eq_false_2. }
+  unfold relabel_g. rewrite Hl. rewrite bool_decide_eq_false_2 by done. split; [|split].
+  - rewrite lookup_insert. f_equal. unfold mk_node. simpl. f_equal.
+    rewrite bool_decide_eq_false_2 by (by rewrite elem_of_list_to_set).
+    assert (fanin (upd_fi (λ s : gset string, if bool_decide (r ∈ s) then {[lv]} ∪ s ∖ {[r]} else s) <$> delete r g) lv = ∅) as ->; [|set_solver].
+    unfold fanin. rewrite lookup_fmap, lookup_delete_ne by done. unfold fanin in Hfl. destruct (g !! lv) as [i|] eqn:E; [|done]. simpl in *.
+    rewrite Hfl. by rewrite bool_decide_eq_false_2 by set_solver.
+  - rewrite lookup_insert_ne by done. by rewrite lookup_fmap, lookup_delete.
+  - intros x H1 H2. rewrite lookup_insert_ne by done. rewrite lookup_fmap, lookup_delete_ne by done.
+    destruct (g !! x) as [i|] eqn:E; [|done]. simpl. f_equal. apply Hsub. by eapply Hnofo.
+Qed.
+
+(* ---- one assignment: everything the fold needs ---- *)
+Lemma c_assign_step k st lv e st' : ties k ## k_rsv k →
+  c_assign k st (lv, e) = Ok st' → gst k st → ties_ok k st.1 → (list_to_set (ids_cond e) : gset string) ⊆ k_rsv k →
+  lv ∈ k_rsv k → undef_ok st.1 lv →
+  gst k st' ∧ ties_ok k st'.1 ∧ (∀ m, m ∈ k_rsv k → m ≠ lv → undef_ok st.1 m → undef_ok st'.1 m) ∧
+  refines_rsv k st.1 st'.1 ∧ (∀ v, consistent st'.1 v → v lv = sem_cond v (v (k_tx k)) e).
+Proof.
+  intros Htr H G Ht Hid Hlv Hu.
+  assert (Hlvt : lv ∉ [k_t0 k; k_t1 k; k_tx k]).
+  { intros Hin. apply (Htr lv); [|done]. unfold ties. set_solver. }
+  split; [|split; [|split; [|split]]].
+  4: { intros v Hv. by eapply (assign_refines k st lv e st'). }
+  4: { by eapply (assign_correct k st lv e st'). }
+  all: unfold c_assign in H; simpl in H; apply mbind_ok in H as ([st1 r] & H1 & H2); simpl in H2.
+  all: destruct (frg_cond _ _ _ _ _ H1) as [Hs G1]; specialize (G1 G); pose proof (fr2_cond _ _ _ _ _ H1) as F2.
+  all: pose proof (fr2_undef _ _ _ lv F2 Hlv Hu) as Hu1.
+  all: unfold assignment in H2; rewrite bool_decide_eq_false_2 in H2 by done.
+  all: case_bool_decide as Hr.
+  (* relabel cases first, then buffer cases, for each of the three goals *)
+  all: try (injection H2 as <-; simpl;
+            destruct (result_cond _ _ _ _ _ H1 G Hid) as [_ HB]; destruct (HB Hr) as (Hrn & t & fi & Hl & Htt & Hfi & Hrfi & Hnofo);
+            assert (Hrr : r ∉ k_rsv k) by (destruct G1 as (_ & _ & _ & Hd); intros ?; by apply (Hd r));
+            assert (Hne : r ≠ lv) by (intros ->; done);
+            assert (Hfl : fanin st1.1 lv = ∅) by (unfold fanin; destruct (st1.1 !! lv) as [i|] eqn:E; [simpl; by destruct (Hu1 i E)|done]);
+            destruct (relabel_shape st1.1 r lv t fi Hl Hne Hrfi Hnofo Hfl) as (Slv & Sr & Sx)).
+  all: try (apply mbind_ok in H2 as ([g' nm] & Ha & E); injection E as <-; simpl).
+  - (* gst, relabel *)
+    destruct G1 as (Hcl & Hti & Htg & Hgr). unfold gst. simpl.
+    assert (Hdom : ∀ f, f ∈ dom st1.1 → f ≠ r → f ∈ dom (relabel_g st1.1 r lv)).
+    { intros f Hf Hfr. destruct (decide (f = lv)) as [->|Hfl']; [apply elem_of_dom; eauto|].
+      apply elem_of_dom in Hf as [j Hj]. apply elem_of_dom. rewrite (Sx f Hfl' Hfr). eauto. }
+    split; [|split; [|split]].
+    + intros x i f Hi Hf. destruct (decide (x = lv)) as [Heq|Hxl]; [subst x|].
+      * rewrite Slv in Hi. injection Hi as <-. simpl in Hf. apply elem_of_list_to_set in Hf.
+        apply Hdom; [|intros ->; done]. eapply (Hcl r); [exact Hl|]. simpl. by apply elem_of_list_to_set.
+      * destruct (decide (x = r)) as [Heq|Hxr]; [subst x; congruence|]. rewrite Sx in Hi by done.
+        apply Hdom; [by eapply Hcl|]. intros ->. by eapply Hnofo.
+    + intros x Hx. apply Hdom; [by apply Hti|]. intros ->. by apply (Htg r).
+    + set_solver.
+    + set_solver.
+  - (* gst, buffer *) eapply add_node_gst; [exact Ha|done|]. by destruct st1.
+  - (* ties_ok, relabel *)
+    destruct (ties_mono _ _ _ Hs Ht) as [(i & H0 & T0) (j & H1' & T1)].
+    destruct G1 as (_ & _ & Htg & _).
+    split; [exists i|exists j]; (split; [|done]); rewrite Sx; try done.
+    + intros <-. apply (Htr (k_t0 k)); [unfold ties; set_solver|done].
+    + intros <-. apply (Htg (k_t0 k)); [unfold ties; set_solver|done].
+    + intros <-. apply (Htr (k_t1 k)); [unfold ties; set_solver|done].
+    + intros <-. apply (Htg (k_t1 k)); [unfold ties; set_solver|done].
+  - (* ties_ok, buffer *) eapply add_node_ties; [done|exact Ha|done|]. by eapply ties_mono.
+  - (* undef, relabel *) intros m Hm Hml Hum. pose proof (fr2_undef _ _ _ m F2 Hm Hum) as Hum1. intros i Hi.
+    rewrite Sx in Hi; [by apply Hum1|done|]. intros ->. done.
+  - (* undef, buffer *) intros m Hm Hml Hum. eapply add_node_undef; [exact Ha|done|]. by eapply fr2_undef.
+Qed.
